@@ -1789,16 +1789,15 @@ func readNextCommand(packet []byte, argsIn [][]byte, msg *Message, wr io.Writer)
 		var line []byte
 		for i := 1; i < len(packet); i++ {
 			if packet[i] == '\n' {
-				if packet[i-1] == '\r' {
-					line = packet[:i+1]
-					break
-				}
+				line = packet[:i+1]
+				break
 			}
 		}
 		if len(line) == 0 {
 			return false, argsIn[:0], redcon.Redis, packet, nil
 		}
-		if len(line) > 11 && string(line[len(line)-11:len(line)-5]) == " HTTP/" {
+		if len(line) > 11 && line[len(line)-2] == '\r' &&
+			string(line[len(line)-11:len(line)-5]) == " HTTP/" {
 			return readNextHTTPCommand(packet, argsIn, msg, wr)
 		}
 	}
